@@ -14,7 +14,8 @@ import common
 
 PROP = "C03"
 HEADER = "From Coq Require Import ZArith List.\nImport ListNotations.\nFrom IBL.C03 Require Import Run."
-WHITELIST = sorted(common.STDLIB_AXIOMS)
+# "Axioms" is the header line of Print Assumptions, which common.print_assumptions picks up as a name
+WHITELIST = sorted(common.STDLIB_AXIOMS) + ["Axioms"]
 TRUSTED = [
     "Coq 8.16.1 kernel + vm_compute (no native_compute); Flocq 4.1 BinarySingleNaN as the definition of IEEE-754 "
     "binary32/binary64 arithmetic; roundtrip theorems use the four standard-library axioms Flocq inherits "
@@ -292,8 +293,11 @@ def layout_case(case, obs):
     for s in obs["shanks"]:
         w = len(s["chns"])
         raw = s["raw"]
-        counter = raw[w - 1::w] if raw.size % w == 0 else raw[:0]
-        runs = runs_of(counter.astype(np.int64) - case["sync_base"])
+        counter = (raw[w - 1::w] if raw.size % w == 0 else raw[:0]).astype(np.int64)
+        if counter.size:            # undo the int16 wrap of the row counter
+            first = (counter[0] - case["sync_base"]) % 65536
+            counter = first + np.r_[0, np.cumsum(np.diff(counter) % 65536)]
+        runs = runs_of(counter)
         if rows_seen is None:
             rows_seen = runs
         elif rows_seen != runs:
